@@ -1012,10 +1012,10 @@ func (s *storage) RemoveBlobs(ctx context.Context, blobs []blob.Ref) error {
 	//  -- iterate over the zip's blobs (at some point). If all are marked deleted, actually RemoveBlob
 	//     on big to delete the full zip and then delete all the meta rows.
 	var (
-		mu       sync.Mutex
-		unpacked []blob.Ref
-		packed   []blob.Ref
-		large    = map[blob.Ref]bool{} // the large blobs that packed are in
+		mu        sync.Mutex
+		fromSmall []blob.Ref // to delete from small: all of them, packed or not
+		packed    []blob.Ref
+		large     = map[blob.Ref]bool{} // the large blobs that packed are in
 	)
 	var grp syncutil.Group
 	delGate := syncutil.NewGate(removeLookups)
@@ -1032,18 +1032,22 @@ func (s *storage) RemoveBlobs(ctx context.Context, blobs []blob.Ref) error {
 			if m.isPacked() {
 				packed = append(packed, br)
 				large[m.largeRef] = true
-			} else {
-				unpacked = append(unpacked, br)
 			}
+			// Always delete from small too: a packed blob can still
+			// have a loose copy there (a pack interrupted between its
+			// meta commit and its delete from small, a failed delete,
+			// skipDelete), which Fetch would serve again once the
+			// meta row is gone.
+			fromSmall = append(fromSmall, br)
 			return nil
 		})
 	}
 	if err := grp.Err(); err != nil {
 		return err
 	}
-	if len(unpacked) > 0 {
+	if len(fromSmall) > 0 {
 		grp.Go(func() error {
-			return s.small.RemoveBlobs(ctx, unpacked)
+			return s.small.RemoveBlobs(ctx, fromSmall)
 		})
 	}
 	if len(packed) > 0 {
